@@ -116,6 +116,7 @@ class Ctx:
         self._impl = None
         self.notes = []
         self.translator_error = None
+        self.translator_errors = {}
         self.build_failed = []
         self.search_factor = 1
         self.second_search = False
@@ -195,10 +196,8 @@ class Ctx:
         def regenerate(write):
             try:
                 return translate.generate(REPO, gen_dir, write=write)
-            except translate.TranslatorError as e:
-                return None, str(e)
-            except Exception as e:  # source no longer parses etc.
-                return None, repr(e)
+            except Exception as e:  # should not happen: generate() is fail-soft per component
+                return None, {}, {"translator": repr(e)}
 
         def up_to_date():
             mk = os.path.join(COQ, "Makefile")
@@ -216,13 +215,15 @@ class Ctx:
             return True
 
         fcntl.flock(self._lock, fcntl.LOCK_SH)
-        changed, info = regenerate(write=False)
+        changed, self.consts, self.translator_errors = regenerate(write=False)
         if changed is None:
-            self.translator_error = info
-            self.broken.append("translator obligation: " + info)
-            changed, self.consts = [], {}
-        else:
-            self.consts = info
+            self.broken.append("translator obligation: " + str(self.translator_errors))
+            changed = []
+        elif self.translator_errors:
+            # a component that could not be extracted is emitted with sentinel / poisoned definitions: the generated
+            # files still compile, the obligations that depend on that component fail, other properties are unaffected
+            log("translator obligations not met:", self.translator_errors)
+            self.notes.append("translator obligations not met (sentinel definitions emitted): " + str(self.translator_errors))
         if not changed and up_to_date():
             self.build_s = 0.0
             return
@@ -230,10 +231,9 @@ class Ctx:
         fcntl.flock(self._lock, fcntl.LOCK_UN)
         fcntl.flock(self._lock, fcntl.LOCK_EX)
         try:
-            if self.translator_error is None:
-                changed, info = regenerate(write=True)
-                if changed:
-                    log("regenerated from the repository:", changed)
+            changed, _, _ = regenerate(write=True)
+            if changed:
+                log("regenerated from the repository:", changed)
             mk = os.path.join(COQ, "Makefile")
             if write_coqproject() or not os.path.exists(mk):
                 rc, out, err = run(["coq_makefile", "-f", "_CoqProject", "-o", "Makefile"], 120, cwd=COQ)
@@ -287,7 +287,9 @@ class Ctx:
                                                 for l in lines[:ln])]
                 where = prev[-1] if prev else "header/imports"
             self.broken.append(f"theorem {where or '?'} in props/{self.pid}.v no longer checks: "
-                               + err.strip().replace("\n", " ")[:400])
+                               + err.strip().replace("\n", " ")[:400]
+                               + (" | translator obligations not met: " + str(self.translator_errors)
+                                  if getattr(self, "translator_errors", None) else ""))
             # obligations discharged before the failure
             self.cov["discharged"] = max(0, names.index(where)) if where in names else 0
             self.props_ok = False
